@@ -1,30 +1,29 @@
 /* C view of vyukov_hash_map::bucket_state shared by units vhm_bs and vhm; include BEFORE "lowered.h".
- * bucket_state has a single data member `std::uint32_t value`; it is modelled as that word. */
+ * bucket_state has a single data member `std::uint32_t value`; it is modelled as that word and passed by value
+ * (`this->value` is the parameter `value`). */
 #ifndef BS_PRELUDE_H
 #define BS_PRELUDE_H
 typedef uint32_t bstate_t;
-struct bsv { uint32_t value; };            /* `this` of a bucket_state member function */
 #define BS_MK(x) ((bstate_t)(x))           /* the private constructor bucket_state(std::uint32_t) */
 static unsigned real_find_last_bit_set(uint64_t val);
-static uint32_t bs_item_count(const struct bsv* self);
-static uint32_t bs_delete_marker(const struct bsv* self);
-static uint32_t bs_version(const struct bsv* self);
-static _Bool bs_is_locked(const struct bsv* self);
-static bstate_t bs_locked(const struct bsv* self);
-static bstate_t bs_clear_lock(const struct bsv* self);
-static bstate_t bs_new_version(const struct bsv* self);
-static bstate_t bs_inc_item_count(const struct bsv* self);
-static bstate_t bs_dec_item_count(const struct bsv* self);
-static bstate_t bs_set_delete_marker(const struct bsv* self, uint32_t marker);
-#define BS_THIS(s) (&(struct bsv){ (s) })
-#define BS_item_count(s) bs_item_count(BS_THIS(s))
-#define BS_delete_marker(s) bs_delete_marker(BS_THIS(s))
-#define BS_version(s) bs_version(BS_THIS(s))
-#define BS_is_locked(s) bs_is_locked(BS_THIS(s))
-#define BS_locked(s) bs_locked(BS_THIS(s))
-#define BS_clear_lock(s) bs_clear_lock(BS_THIS(s))
-#define BS_new_version(s) bs_new_version(BS_THIS(s))
-#define BS_inc_item_count(s) bs_inc_item_count(BS_THIS(s))
-#define BS_dec_item_count(s) bs_dec_item_count(BS_THIS(s))
-#define BS_set_delete_marker(s, m) bs_set_delete_marker(BS_THIS(s), (m))
+static uint32_t bs_item_count(bstate_t value);
+static uint32_t bs_delete_marker(bstate_t value);
+static uint32_t bs_version(bstate_t value);
+static _Bool bs_is_locked(bstate_t value);
+static bstate_t bs_locked(bstate_t value);
+static bstate_t bs_clear_lock(bstate_t value);
+static bstate_t bs_new_version(bstate_t value);
+static bstate_t bs_inc_item_count(bstate_t value);
+static bstate_t bs_dec_item_count(bstate_t value);
+static bstate_t bs_set_delete_marker(bstate_t value, uint32_t marker);
+#define BS_item_count(s) bs_item_count((s))
+#define BS_delete_marker(s) bs_delete_marker((s))
+#define BS_version(s) bs_version((s))
+#define BS_is_locked(s) bs_is_locked((s))
+#define BS_locked(s) bs_locked((s))
+#define BS_clear_lock(s) bs_clear_lock((s))
+#define BS_new_version(s) bs_new_version((s))
+#define BS_inc_item_count(s) bs_inc_item_count((s))
+#define BS_dec_item_count(s) bs_dec_item_count((s))
+#define BS_set_delete_marker(s, m) bs_set_delete_marker((s), (m))
 #endif
